@@ -1339,6 +1339,9 @@ def mutex_Unlock(ex, st, args, ctx):
     if not st.heap.get(key):
         raise PathEnd('panic', 'unlock of unlocked mutex at %s' % ctx['pos'])
     st.heap[key] = None
+    if getattr(st, 'track_all', False) and hasattr(ex, 'snapshots') and len(ex.snapshots) < 64:
+        # a point at which another invocation can run against the shared state this one has published so far
+        ex.snapshots.append((ctx['pos'], st.clone()))
     return None
 
 
